@@ -75,7 +75,7 @@ def run(ctx):
         raise vlib.Infra("generator produced %d cases: %s" % (len(cases), dict(fams)))
     # (G) simulated large collections, lemmas checked on each (one worker: reproducible for a seed)
     nsim = 1500 if q else 12000
-    s = ctx.tlc("Legacy_gen.tla", "Legacy_gen_sim.cfg", workers=1, simulate=nsim, depth=40, timeout=3000,
+    s = ctx.tlc("Legacy_gen.tla", "Legacy_gen_sim.cfg", workers=1, simulate=nsim, depth=130, timeout=3000,
                 label="simulate+gen", env=jenv)
     sims = s.printed_json("case")
     if len(sims) < nsim * 0.9:
